@@ -387,7 +387,7 @@ class _QCompare(Contract):
     """Quantity.__eq__ / __lt__: NotImplemented for other types, other dimensions and when no
     conversion exists (the data model then yields False for == and TypeError for <); otherwise
     the comparison of the physical values.  No exception escapes (C07)."""
-    props = ("C03", "C06", "C07", "C12")
+    props = ("C03", "C06", "C07", "C10", "C12")  # C10: ordering and equality across scales go through the same two functions
     inv = ("I_D", "I_P", "I_U")
     modifies = _UnitBin.modifies + ("new:Quantity",)
     types = {"other": [T_QTY, T_UNIT, ("int",), ("other",)]}
